@@ -7,6 +7,7 @@ prop("C01", pkg="c01",
           "(type descriptor, setting, value recipe).",
      quick=dict(shards=16, scale=1, timeout=900),
      thorough=dict(shards=16, rounds=6, scale=1.5, timeout=3000),
+     fuzz=[('FuzzMarshalAnyDiff', 90)],
      builds=[dict(name="default", tags=[], race=False), dict(name="purego", tags=["purego"], race=False, thorough_only=True)],
      technique="rapid property-based differential testing against encoding/json (generated types x values x encoder settings)",
      level_text="Exploration: randomised differential testing; each run compares several hundred thousand (type, value, setting) triples byte-for-byte with "
